@@ -83,9 +83,15 @@ def triples : List Int → Option (List (Int × Nat × Nat))
   | _ => none
 
 def opCrash (t : List Stmt) (prev : List (Int × Nat × Nat)) (new : Int × Nat × Nat) (sizes : List Int)
-    (n : Nat) (m : Option Nat) : String :=
+    (n : Nat) (m : Option Nat) (stale : List Int := []) : String :=
   let sv := opsOf t
   let d := prev.foldl (fun d (it, sid, size) => run d (sv it [toyEncode sid size])) Dir.empty
+  -- an earlier save that crashed at `(sn, sm)` and left its temporaries behind
+  let d := match stale with
+    | [sit, ssid, ssize, sn, sm] =>
+      run d (crashAt (sv sit (chunk (toyEncode ssid.toNat ssize.toNat) (sizes.map Int.toNat))) sn.toNat
+        (if sm < 0 then none else some sm.toNat))
+    | _ => d
   let (it, sid, size) := new
   let ops := sv it (chunk (toyEncode sid size) (sizes.map Int.toNat))
   fmtLoad (loadLatest toyDecode (run d (crashAt ops n m)))
@@ -218,6 +224,22 @@ def opTrain (c : ToyCfg) (ckSteps : Nat) (pinnedKill : Bool) (t : List Stmt) (st
           d := d'
       return okG out
 
+def pairs : List Int → Option Bundle.Objs
+  | [] => some []
+  | k :: v :: r => (pairs r).map ((k.toNat, v.toNat) :: ·)
+  | _ => none
+
+/-- `bundle` saver pairs | loader pairs | mode | keys → loader states after load | keys left in the returned dict -/
+def opBundle (a b : Bundle.Objs) (mode : Int) (keys : List Int) : String :=
+  let m : Bundle.Mode := match mode with
+    | 0 => .full
+    | 1 => .onlyModels
+    | _ => .select (keys.map Int.toNat)
+  let file := Bundle.save a
+  match Bundle.load b file m with
+  | .error _ => "err KeyError"
+  | .ok b' => okG [b'.map fun kv => (kv.2 : Int), (Bundle.leftover file m).map Int.ofNat]
+
 def step (op : String) (gs : List (List Int)) : String :=
   match op, gs with
   | "saveops", [[it, pinned], sizes, tbl] =>
@@ -229,11 +251,20 @@ def step (op : String) (gs : List (List Int)) : String :=
     | some pv, some t =>
       opCrash t pv (it, sid.toNat, size.toNat) sizes n.toNat (if m < 0 then none else some m.toNat)
     | _, _ => "err BadOp"
+  | "crash", [[pinned], prev, [it, sid, size], sizes, [n, m], tbl, stale] =>
+    match triples prev, tableOf (pinned == 1) tbl with
+    | some pv, some t =>
+      opCrash t pv (it, sid.toNat, size.toNat) sizes n.toNat (if m < 0 then none else some m.toNat) stale
+    | _, _ => "err BadOp"
   | "dirload", [last, files] =>
     match quads files with
     | some fs => opDirLoad last fs
     | none => "err BadOp"
   | "lr", [hdr, rats, ms] => opLr hdr rats ms
+  | "bundle", [a, b, [mode], keys] =>
+    match pairs a, pairs b with
+    | some a, some b => opBundle a b mode keys
+    | _, _ => "err BadOp"
   | "train", [hdr, mu, sched, ms, xs, ys, w0, stops, tbl] =>
     match parseToy hdr mu sched ms xs ys w0, tableOf false tbl with
     | some c, some t => opTrain c (hdr.getD 4 1).toNat (hdr.getD 5 0 == 1) t stops
